@@ -6,6 +6,9 @@ Translated, from traits/adaptation/adaptation_manager.py of the working tree:
   * the module-level edge comparison `_by_weight_then_from_protocol_specificity`,
   * the entry points `AdaptationManager.adapt` (its default value `default=AdaptationError` is emitted as
     `adaptDefault`), `supports_protocol`, `register_offer`.
+`register_factory`, `register_provides`, `no_adapter_necessary` and `AdaptationOffer._get_from_protocol_name` /
+`_get_type_name` (the bucket key: F16) are not interpreted; their normalised statement texts are emitted
+(`registerFactorySource`, ...) and compared literally by `C17_register_wrappers_source`.
 Any attribute of `self` other than `_adaptation_offers` (`.items()` / `.setdefault(name, [])`) and the translated
 methods is outside the subset: new state on the manager (a cache, a counter) makes the translator fail.
 Emits Generated/AdaptProg.lean: one `Stmt` definition per loop body (`<fn>Loop<k>`, numbered in source
@@ -486,6 +489,38 @@ def emit(traits_dir):
                 raise Unknown("adapt: %d default values" % len(dflts))
             lines.append("/-- the default value of `adapt`'s parameter `default` (a module-level singleton) -/\n"
                          'def adaptDefault : String := "%s"\n' % dflts[0])
+    # ---- normalised-text ties for what is NOT interpreted: the registration wrappers and the bucket name
+    def text_of(fn):
+        body = [x for x in fn.body if not (isinstance(x, ast.Expr) and isinstance(x.value, ast.Constant)
+                                           and isinstance(x.value.value, str))]
+        return ["def %s(%s)" % (fn.name, ast.unparse(fn.args))] + [" ".join(ast.unparse(x).split()) for x in body]
+
+    def lean_strings(name, doc, rows):
+        return ["/-- %s -/" % doc, "def %s : List String := [%s]" % (name, ",\n  ".join(
+            '"%s"' % r.replace("\\", "\\\\").replace('"', '\\"') for r in rows)), ""]
+    cls_fns = {n.name: n for n in classes[CLASS].body if isinstance(n, ast.FunctionDef)}
+    mod_fns = {n.name: n for n in tree.body if isinstance(n, ast.FunctionDef)}
+    for need, where in (("register_factory", cls_fns), ("register_provides", cls_fns), ("no_adapter_necessary", mod_fns)):
+        if need not in where:
+            raise Unknown("%s not found" % need)
+    lines += lean_strings("registerFactorySource", "statement texts of `AdaptationManager.register_factory`",
+                          text_of(cls_fns["register_factory"]))
+    lines += lean_strings("registerProvidesSource", "statement texts of `AdaptationManager.register_provides`",
+                          text_of(cls_fns["register_provides"]))
+    lines += lean_strings("noAdapterNecessarySource", "statement texts of `no_adapter_necessary`",
+                          text_of(mod_fns["no_adapter_necessary"]))
+    otree = ast.parse(open(os.path.join(traits_dir, "adaptation", "adaptation_offer.py")).read())
+    ocls = [n for n in otree.body if isinstance(n, ast.ClassDef) and n.name == "AdaptationOffer"]
+    if len(ocls) != 1:
+        raise Unknown("class AdaptationOffer not found")
+    ofns = {n.name: n for n in ocls[0].body if isinstance(n, ast.FunctionDef)}
+    name_rows = []
+    for need in ("_get_from_protocol_name", "_get_type_name"):
+        if need not in ofns:
+            raise Unknown("AdaptationOffer.%s not found" % need)
+        name_rows += text_of(ofns[need])
+    lines += lean_strings("offerNameSource", "statement texts of `AdaptationOffer._get_from_protocol_name` and "
+                          "`_get_type_name` (the registry's bucket key)", name_rows)
     lines += ["/-- the translated functions of adaptation_manager.py -/", "def adaptProg : Prog := [",
               ",\n".join(rows), "]", "", "end TraitsVerif.Generated.AdaptProg"]
     return "\n".join(lines) + "\n"
